@@ -385,7 +385,7 @@ def print_assumptions(ctx, theorems):
         if c.strip().startswith('Closed'):
             res[t] = []
         else:
-            res[t] = sorted(set(re.findall(r'^([A-Za-z_][\w\.\']*)\s*:', c, re.M)))
+            res[t] = sorted(set(re.findall(r'^([A-Za-z_][\w\.\']*)\s*:', c, re.M)) - {'Axioms'})
     if len(chunks) != len(theorems):
         return None, 'could not parse Print Assumptions output:\n' + out
     return res, out
